@@ -113,6 +113,33 @@ sys.exit(1 if err > 5e-4 else 0)
     return r.returncode == 1, script, name.split("[")[0]
 
 
+def _replay_roundtrip(rot):
+    """float replay of the ROTATED round trip through the public API: vectors of the cell, rotated, handed to the Trajectory setter and to
+    box_vectors_to_lengths_and_angles; lengths and angles must come back"""
+    def rep(name, vals):
+        v = _angles_from_cos(vals)
+        script = f'''
+import numpy as np, sys, mdtraj as md
+from mdtraj.utils.unitcell import lengths_and_angles_to_box_vectors as f, box_vectors_to_lengths_and_angles as g
+a, b, c, al, be, ga = {v["a"]!r}, {v["b"]!r}, {v["c"]!r}, {v["alpha"]!r}, {v["beta"]!r}, {v["gamma"]!r}
+R = np.array({ROTS[rot]!r}, dtype=float)
+V = np.array(f(a, b, c, al, be, ga)) @ R.T
+l = g(*V)
+t = md.Trajectory(np.zeros((1, 1, 3), dtype=np.float32), None); t.unitcell_vectors = V[None].astype(np.float32)
+got2 = list(t.unitcell_lengths[0]) + list(t.unitcell_angles[0])
+err = max(abs(l[0] - a), abs(l[1] - b), abs(l[2] - c), abs(l[3] - al) * 1e-2, abs(l[4] - be) * 1e-2, abs(l[5] - ga) * 1e-2)
+err = max(err, max(abs(x - y) * (1 if k < 3 else 1e-2) for k, (x, y) in enumerate(zip(got2, (a, b, c, al, be, ga)))))
+print("goal {name}: cell", (a, b, c, al, be, ga), "rotated description read back as", [round(float(x), 4) for x in l], "deviation", err)
+sys.exit(1 if err > 5e-4 else 0)
+'''
+        import subprocess, sys as _s, tempfile
+        with tempfile.NamedTemporaryFile("w", suffix=".py", delete=False) as fh:
+            fh.write(script)
+        r = subprocess.run([_s.executable, fh.name], capture_output=True, text=True)
+        return r.returncode == 1, script + "\n# " + (r.stdout + r.stderr)[-400:].replace("\n", "\n# "), name.split("[")[0]
+    return rep
+
+
 def _radicand_lemma(G, prem, c, trig, gram, inp, i, tag="", cell=0):
     """algebraic lemma (proved by the solver, then used): for the sqrt the code takes for c_z,
     radicand * sin(gamma)^2 == c^2 * Gram, hence radicand >= c^2 * Gram (sin^2 <= 1)."""
@@ -329,7 +356,7 @@ def roundtrip(rot: int = 0):
             var, arg = v[0]
             G.add(f"angle_{name}_is_deg_acos[{i}]", prem, e == var * S.rat(180.0) / S.PI, inp)
             G.add(f"angle_{name}_arg_is_cos_{name}[{i}]", prem, S.close(arg, want_cos, z3.RealVal("1/10000")), inp)
-    r = G.run(_replay_forward)
+    r = G.run(_replay_roundtrip(rot))
     r["paths"] = len(paths)
     r["rotation"] = ROTS[rot]
     if n_ok == 0 and r["status"] == "holds":
